@@ -99,6 +99,12 @@ func (state *RuntimeState) oktaPushStartHandler(w http.ResponseWriter, r *http.R
 	if err != nil {
 		logger.Debugf(2, "oktaPushStartHandler: ")
 	}
+	if userResponse == nil {
+		// No recent (unexpired) Okta sign-in for this user, e.g. the caller
+		// authenticated with a certificate or the Okta state expired.
+		state.writeFailureResponse(w, r, http.StatusPreconditionFailed, "No valid MFA authenticators available")
+		return
+	}
 	if len(userResponse.Embedded.Factor) < 1 {
 		logger.Printf("oktaPushStartHandler: user %s does not have valid authenticators", authData.Username)
 		logger.Debugf(2, "oktaPushStartHandler: userdata for broken user%s is :%s", authData.Username, userResponse)
